@@ -68,6 +68,22 @@ CLAIMED = {
                 "non-judged corpus entry; List is harness-instantiated. No axioms.",
         "technique": "Coq proof over source-regenerated wrapper table + extracted-model differential sequences under sanitizers",
     },
+    "C16": {
+        "category": "proof",
+        "text": "Coq theorems (Properties_C16.v: C16_int, C16_int_buildInt, C16_escape, C16_char, C16_escape_plain, C16_float_type, C16_float_value_partial, C16_keywords, C16_reserved, "
+                "C16_hash_only_refuted; Properties_Lex.v: lexer_safe for every scanner) over a line-by-line Gallina port of the parser's lexical layer, with buildInt/buildFloat's suffix "
+                "scans and type ladders, Id()'s keyword guard list and hash-switch labels, Name_Validator's lists, the FNV-1a constants and the 12 alphabets regenerated from "
+                "chaiscript_parser.hpp / chaiscript_common.hpp / utility/hash.hpp on every run: every well-formed integer literal gets the first fitting type of its [lex.icon] "
+                "sequence and its exact value from Num(); the Char_Parser loop equals an independent C++ escape decoder (errors exactly where the literal is ill-formed); word literals "
+                "and reserved words are recognised by spelling only (a hash-only recogniser is refuted by computed FNV collisions); the float suffix picks the type; integer-valued "
+                "D.0 spellings are exact. Tie: 21k (quick) / 255k (thorough) single-literal correspondence with the compiled parser; oracle = extracted C++ specification.",
+        "design_ref": "DESIGN.md §6 C16",
+        "note": "Partial: float VALUES beyond the exact family are not proved (C16_float_value_partial); they are covered by bit-exact correspondence for exponent-free spellings and an "
+                "8-ulp tolerance TEST against the correctly rounded value (std::pow is libm; the model uses the correctly rounded power). Trusted: Coq kernel + vm_compute; translators "
+                "t_IntLadder.py/t_Keywords.py; hand port in LexDefs.v (validated by correspondence); LP64/x87; extraction. Axioms: none except, for C16_float_value_partial only, Coq's "
+                "real-number axioms through Flocq (ClassicalDedekindReals.sig_forall_dec, sig_not_dec, Classical_Prop.classic, functional_extensionality_dep).",
+        "technique": "Coq proof over source-regenerated tables + ported scanners; extracted-model/spec differential testing of the real parser",
+    },
 }
 PENDING_REASON = "check not built yet in this round (work in progress; see DESIGN.md §6 for the planned Coq model and tie)"
 ALL = ["C%02d" % i for i in range(1, 21)]
